@@ -435,3 +435,214 @@ Proof.
       eapply freach_trans; [apply deliver_reach|]. apply settle_reach.
     + vm_compute. auto.
 Qed.
+
+(* ------------------------------------------------------------------------------------------------------------ *)
+(* The writer's flush decision, item by item (FlushModel.write_items = the loop body of channelWriterHandleBatch). *)
+Section PerItem.
+  Variable item vst : Type.
+  Notation fstate := (fstate item vst).
+
+  Lemma write_items_every (l fl : list item) :
+    write_items item true (flush_every_item item) l fl [] = (fl ++ l, []).
+  Proof.
+    revert fl; induction l as [|i t IH]; intros fl; cbn [write_items flush_every_item andb].
+    - now rewrite app_nil_r.
+    - rewrite IH. cbn [app]. now rewrite <- !app_assoc.
+  Qed.
+
+  Lemma write_items_noflush after (l fl buf : list item) : write_items item false after l fl buf = (fl, buf ++ l).
+  Proof.
+    revert fl buf; induction l as [|i t IH]; intros fl buf; cbn [write_items andb].
+    - now rewrite app_nil_r.
+    - rewrite IH. now rewrite <- app_assoc.
+  Qed.
+
+  (* whatever the rule: nothing is lost or reordered between stdout and the buffer *)
+  Lemma write_items_sum fflush after (l fl buf : list item) :
+    fst (write_items item fflush after l fl buf) ++ snd (write_items item fflush after l fl buf) = fl ++ buf ++ l.
+  Proof.
+    revert fl buf; induction l as [|i t IH]; intros fl buf; cbn [write_items fst snd].
+    - now rewrite app_nil_r.
+    - destruct (fflush && after i); rewrite IH; cbn [app]; now rewrite <- !app_assoc.
+  Qed.
+
+  (* the merged writer step of the model IS the per-item loop with the code's rule (flush after every item, record
+     or text), followed by stream.go's final Flush when the batch carries end of stream *)
+  Theorem fwriter_succs_per_item fflush (s : fstate) b q :
+    dwq (fd s) = b :: q -> (fflush = true -> buffered s = []) ->   (* with --fflush the buffer is empty between items: buffer_invariant *)
+    fwriter_succs fflush s =
+      let r := write_items item fflush (flush_every_item item) (fst b) (flushed s) (buffered s) in
+      let d' := mkD (rrem (fd s)) (dvs (fd s)) q (dwritten (fd s) ++ [b]) in
+      [if snd b then mkF d' (fst r ++ snd r) [] else mkF d' (fst r) (snd r)].
+  Proof.
+    intros E Hb. unfold fwriter_succs. rewrite E. cbv zeta. destruct fflush.
+    - rewrite (Hb eq_refl), write_items_every. cbn [orb fst snd app]. rewrite app_nil_r. destruct (snd b); reflexivity.
+    - rewrite write_items_noflush. cbn [orb fst snd]. destruct (snd b); reflexivity.
+  Qed.
+End PerItem.
+
+(* a rule that flushes after records only (records = inl, print/dump/comment text = inr) leaves a text-only batch in
+   the buffer although --fflush is on: nothing becomes visible.  (This is why the code's rule covers every item.) *)
+Theorem flush_after_records_only_refuted :
+  exists (after : nat + nat -> bool) (l : list (nat + nat)),
+    (forall r, after (inl r) = true) /\ l <> [] /\
+    write_items (nat + nat) true after l [] [] = ([], l) /\
+    write_items (nat + nat) true (flush_every_item (nat + nat)) l [] [] = (l, []).
+Proof.
+  exists (fun i => match i with inl _ => true | inr _ => false end), [inr 7; inr 8].
+  split; [reflexivity|]. split; [discriminate|]. split; reflexivity.
+Qed.
+
+(* ------------------------------------------------------------------------------------------------------------ *)
+(* "At rest" is exactly "no verb step and no writer step is enabled" while the input is open.
+   quiet_no_step is one direction; here the other: while every batch handed over so far is a non-end batch (the pipe
+   is still open) and the verbs pass the end-of-stream bit through unchanged (true of everything driven by
+   runSingleTransformerBatch: to_dverb_pres), no stage has finished, so a state in which neither the chain nor the
+   writer can move has every verb waiting on an empty channel and an empty writer channel. *)
+Section StuckIdle.
+  Variable item vst : Type.
+  Notation dstate := (dstate item vst).
+  Notation fstate := (fstate item vst).
+  Notation batch := (batch item).
+  Notation dstage := (dstage item vst).
+
+  Definition ne (b : batch) : bool := negb (snd b).
+  Definition pres (v : dverb item vst) : Prop := forall x b, snd (snd (dfun item vst v x b)) = snd b.
+  Definition stage_ne (g : dstage) : Prop :=
+    pres (dv item vst g) /\ dp g <> DDone item /\ forallb ne (din g) = true /\
+    match dp g with DWork _ b | DSend _ b => snd b = false | _ => True end.
+
+  Lemma dlocal_ne (g g' : dstage) : stage_ne g -> In g' (dlocal g) -> stage_ne g'.
+  Proof.
+    intros (Hp & Hd & Hq & Hh). unfold dlocal. destruct g as [v x p q]; cbn [dp din dv DataPipeline.dst] in *.
+    destruct p as [|b|o|].
+    - destruct q as [|b q]; [intros []|]. intros [<-|[]]. cbn in Hq. apply andb_true_iff in Hq as [Hb Hq].
+      unfold stage_ne; cbn. repeat split; auto; try discriminate. unfold ne in Hb. now apply negb_true_iff in Hb.
+    - pose proof (Hp x b) as He. destruct (dfun item vst v x b) as [x' o]. intros [<-|[]].
+      unfold stage_ne; cbn in *. repeat split; auto; try discriminate. congruence.
+    - intros [].
+    - intros [].
+  Qed.
+
+  Lemma forallb_ne_app (q : list batch) o : forallb ne q = true -> snd o = false -> forallb ne (q ++ [o]) = true.
+  Proof. intros Hq Ho. rewrite forallb_app, Hq. cbn. unfold ne. now rewrite Ho. Qed.
+
+  Lemma dchain_ne : forall (vs : list dstage) wq vs' wq',
+    Forall stage_ne vs -> forallb ne wq = true -> In (vs', wq') (dchain_succs vs wq) ->
+    Forall stage_ne vs' /\ forallb ne wq' = true.
+  Proof.
+    induction vs as [|g rest IH]; intros wq vs' wq' Hall Hw Hin; cbn [dchain_succs] in Hin; [destruct Hin|].
+    inversion Hall as [|? ? Hg Hrest]; subst. rewrite !in_app_iff in Hin. destruct Hin as [Hin|[Hin|Hin]].
+    - apply in_map_iff in Hin as (g' & E0 & Hl). inversion E0; subst. split; [|exact Hw].
+      constructor; [eapply dlocal_ne; eauto|exact Hrest].
+    - destruct (dp g) as [|b|o|] eqn:Ep; try destruct Hin.
+      assert (Ho : snd o = false) by (destruct Hg as (_ & _ & _ & Hh); now rewrite Ep in Hh).
+      assert (Hg' : stage_ne (set_dp item vst g (if snd o then DDone item else DRecv item))).
+      { rewrite Ho. destruct Hg as (A & B & C & D). unfold stage_ne; cbn. repeat split; auto. discriminate. }
+      destruct rest as [|g2 rest2].
+      + dif Hin; [|destruct Hin]. destruct Hin as [E0|[]]. inversion E0; subst. split; [constructor; [exact Hg'|constructor]|].
+        now apply forallb_ne_app.
+      + dif Hin; [|destruct Hin]. destruct Hin as [E0|[]]. inversion E0; subst. split; [|exact Hw].
+        inversion Hrest as [|? ? Hg2 Hrest2]; subst. constructor; [exact Hg'|]. constructor; [|exact Hrest2].
+        destruct Hg2 as (A & B & C & D). unfold stage_ne; cbn. repeat split; auto. now apply forallb_ne_app.
+    - apply in_map_iff in Hin as ([rest' wq1] & E0 & Hin'). inversion E0; subst.
+      destruct (IH _ _ _ Hrest Hw Hin') as [A B]. split; [constructor; auto|exact B].
+  Qed.
+
+  Definition NE (d : dstate) : Prop := forallb ne (rrem d) = true /\ Forall stage_ne (dvs d) /\ forallb ne (dwq d) = true.
+
+  Lemma NE_step (d d' : dstate) : NE d -> dstep d d' -> NE d'.
+  Proof.
+    intros (Hr & Hv & Hw). unfold dstep. rewrite dsuccs_split, !in_app_iff. intros [H|[H|H]].
+    - unfold reader_succs in H. destruct (rrem d) as [|b r] eqn:Er; [destruct H|]. destruct (dvs d) as [|g rest] eqn:Ev; [destruct H|].
+      dif H; [|destruct H]. destruct H as [<-|[]]. cbn in Hr. apply andb_true_iff in Hr as [Hb Hr]. unfold NE; cbn.
+      split; [exact Hr|]. split; [|exact Hw]. inversion Hv as [|? ? Hg Hrest]; subst. constructor; [|exact Hrest].
+      destruct Hg as (A & B & C & D). unfold stage_ne; cbn. repeat split; auto. apply forallb_ne_app; [exact C|].
+      unfold ne in Hb. now apply negb_true_iff in Hb.
+    - unfold chain_succs in H. apply in_map_iff in H as ([vs' wq'] & <- & Hin). unfold NE; cbn.
+      destruct (dchain_ne _ _ _ _ Hv Hw Hin) as [A B]. auto.
+    - unfold writer_succs in H. destruct (dwq d) as [|b q] eqn:Eq; [destruct H|]. destruct H as [<-|[]]. unfold NE; cbn.
+      cbn in Hw. apply andb_true_iff in Hw as [_ Hw]. auto.
+  Qed.
+
+  Definition all_pres (vs : list (dverb item vst * vst)) : Prop := Forall (fun p => pres (fst p)) vs.
+
+  Lemma NE_init vs bs : all_pres vs -> forallb ne bs = true -> NE (dinit vs bs).
+  Proof.
+    intros Hp Hb. unfold NE, dinit; cbn. split; [exact Hb|]. split; [|reflexivity].
+    induction Hp as [|[v x0] vs Hv _ IH]; cbn; constructor; [|exact IH].
+    unfold stage_ne, fresh; cbn. repeat split; auto. discriminate.
+  Qed.
+
+  Lemma NE_reach vs bs d : all_pres vs -> forallb ne bs = true -> dreach (dinit vs bs) d -> NE d.
+  Proof. intros Hp Hb. induction 1 as [|d d' _ IH Hs]; [now apply NE_init|eapply NE_step; eauto]. Qed.
+
+  (* no stage finished + nothing can move => every stage waits on an empty channel *)
+  Lemma stuck_idle_chain : forall vs : list dstage,
+    Forall (fun g => dp g <> DDone item) vs -> dchain_succs vs [] = [] -> forallb idle_b vs = true.
+  Proof.
+    induction vs as [|g rest IH]; intros Hall Hs; [reflexivity|]. inversion Hall as [|? ? Hg Hrest]; subst.
+    cbn [dchain_succs] in Hs. apply app_eq_nil in Hs as [Hl Hs]. apply app_eq_nil in Hs as [Hsend Hdeep].
+    apply map_eq_nil in Hl. apply map_eq_nil in Hdeep. specialize (IH Hrest Hdeep).
+    cbn [forallb]. rewrite IH, andb_true_r. unfold idle_b. unfold dlocal in Hl.
+    destruct (dp g) as [|b|o|] eqn:Ep.
+    - destruct (din g); [reflexivity|discriminate].
+    - destruct (dfun item vst (dv item vst g) (DataPipeline.dst item vst g) b); discriminate.
+    - exfalso. destruct rest as [|g2 rest2]; [cbn in Hsend; discriminate|].
+      cbn [forallb] in IH. apply andb_true_iff in IH as [I2 _]. unfold idle_b in I2. apply andb_true_iff in I2 as [_ I2].
+      destruct (din g2); [cbn in Hsend; discriminate|discriminate].
+    - now elim Hg.
+  Qed.
+
+  Theorem stuck_is_quiet fl vs (delivered pending : list batch) (s : fstate) :
+    all_pres vs -> forallb ne delivered = true ->
+    freach fl (finit vs (delivered ++ pending)) s -> rrem (fd s) = pending ->
+    nonreader_fsuccs fl s = [] -> fquiet s = true.
+  Proof.
+    intros Hp Hd Hr Hrem Hs. unfold nonreader_fsuccs in Hs. apply app_eq_nil in Hs as [Hc Hw].
+    apply map_eq_nil in Hc. unfold chain_succs in Hc. apply map_eq_nil in Hc.
+    assert (Hq : dwq (fd s) = []).
+    { unfold fwriter_succs in Hw. destruct (dwq (fd s)); [reflexivity|]. destruct (fl || snd b); discriminate. }
+    apply (freach_proj item vst) in Hr. cbn [fd finit] in Hr. apply (reach_truncate item vst) in Hr as (pre & E0 & Hr).
+    rewrite Hrem in E0. apply app_inv_tail in E0. subst pre.
+    pose proof (NE_reach _ _ _ Hp Hd Hr) as (_ & Hv & _). unfold with_rrem in Hv; cbn in Hv.
+    unfold fquiet. rewrite Hq. rewrite andb_true_r. rewrite Hq in Hc. apply stuck_idle_chain; [|exact Hc].
+    eapply Forall_impl; [|exact Hv]. intros g (_ & A & _). exact A.
+  Qed.
+
+  (* both directions *)
+  Corollary quiet_iff_no_step fl vs (delivered pending : list batch) (s : fstate) :
+    all_pres vs -> forallb ne delivered = true ->
+    freach fl (finit vs (delivered ++ pending)) s -> rrem (fd s) = pending ->
+    (fquiet s = true <-> nonreader_fsuccs fl s = []).
+  Proof. intros Hp Hd Hr Hrem. split; [apply quiet_no_step|now apply (stuck_is_quiet fl vs delivered pending)]. Qed.
+End StuckIdle.
+
+(* chains driven by runSingleTransformerBatch pass the end-of-stream bit through *)
+Lemma to_dverb_pres item st (v : sverb item st) : pres item st (@to_dverb item st v).
+Proof. intros x b. unfold to_dverb, sv_batch; cbn. destruct (@run_items item st (@svstep item st v) x (fst b)). reflexivity. Qed.
+
+Lemma dchain_all_pres item st (c : list (sverb item st * st)) : all_pres item st (@dchain item st c).
+Proof. induction c as [|[v x0] c IH]; cbn; constructor; [apply to_dverb_pres|exact IH]. Qed.
+
+Lemma singletons_ne item (l : list item) : forallb (ne item) (@singletons item l) = true.
+Proof. induction l; cbn; auto. Qed.
+
+(* the tail -f contract with the rest condition stated as ENABLEDNESS: --fflush, one record per batch, a chain of
+   fully streaming verbs, the records [delivered] handed over, and no verb step and no writer step possible:
+   stdout shows the complete output of the chain on those records *)
+Theorem streaming_tail_f_no_step item st (c : list (sverb item st * st)) (delivered : list item) (pending : list (batch item))
+        (s : fstate item st) :
+  all_streaming item st c ->
+  freach true (finit (@dchain item st c) (@singletons item delivered ++ pending)) s ->
+  rrem (fd s) = pending -> nonreader_fsuccs true s = [] ->
+  flushed s = @chain_out item st c delivered /\ buffered s = [].
+Proof.
+  intros Ha Hr Hrem Hs.
+  assert (Hq : fquiet s = true).
+  { apply (stuck_is_quiet item st true (@dchain item st c) (@singletons item delivered) pending); auto.
+    - apply dchain_all_pres.
+    - apply singletons_ne. }
+  split; [now apply (streaming_tail_f item st c delivered pending s)|].
+  now destruct (tail_f_contract item st (@dchain item st c) (@singletons item delivered) pending s Hr Hrem Hq).
+Qed.
